@@ -154,7 +154,8 @@ def steps_instance(seed):
     masses = [tab[m] / r for m, r in zip(ms, ratios)]
     order = (rng.choice([1, 2, 3, 4]), 0)
     scheme = rng.choice([QuarkMassScheme.POLE, QuarkMassScheme.MSBAR])
-    rec = {"ms": ms, "ref": ref, "target": target, "exc": "", "dec": [], "runs": [], "order": order[0], "scheme": scheme.name}
+    rec = {"ms": ms, "ref": ref, "target": target, "exc": "", "dec": [], "runs": [], "order": order[0], "scheme": scheme.name,
+           "val": "na"}
     info = CouplingsInfo(alphas=0.118 if tab[ref[0]] > 50 else 0.25, alphaem=0.00781, ref=(tab[ref[0]] ** 0.5, ref[1]))
     obj = Couplings(info, order=order, method=CouplingEvolutionMethod.EXPANDED, masses=masses, hqm_scheme=scheme, thresholds_ratios=ratios)
     # the atlas squares the reference scale again: recover the token table from the object itself
@@ -189,6 +190,7 @@ def steps_instance(seed):
         return saved[2](self, a_ref, nf, nl, scale_from, scale_to)
 
     ec.compute_matching_coeffs_up, ec.compute_matching_coeffs_down, Couplings.compute = up, down, compute
+    val = None
     try:
         val = obj.a(tab[target[0]], target[1])
         if not np.all(np.isfinite(val)):
@@ -208,4 +210,41 @@ def steps_instance(seed):
             cur = {}
         else:
             rec["runs"].append({"nf": ev[1], "from": ev[2], "to": ev[3]})
+    # numbers for the value clause (kept out of the TLC trace: floats)
+    t2f = dict(tab)
+    t2f[ref[0]] = float(obj.atlas.origin[0])
+    for m, w in zip(ms, obj.atlas.walls[1:-1]):
+        t2f[m] = float(w)
+    rec["_num"] = {"t2f": t2f, "masses": masses, "ratios": ratios, "alphas": info.alphas, "refscale": info.ref[0],
+                   "refnf": ref[1], "order": order, "scheme": scheme.name,
+                   "val": [float(v) for v in val] if val is not None and rec["exc"] == "" else None}
     return rec
+
+
+def steps_expected(num, steps):
+    """Compose the steps TLC derived from Atlas!Path with the library's primitives: per-patch
+    running by Couplings.compute of a fresh object, decoupling by the coefficient tables."""
+    import eko.couplings as ec
+    from eko import matchings
+    from eko.couplings import Couplings
+    from eko.quantities.couplings import CouplingEvolutionMethod, CouplingsInfo
+    from eko.quantities.heavy_quarks import QuarkMassScheme
+
+    scheme = QuarkMassScheme[num["scheme"]]
+    info = CouplingsInfo(alphas=num["alphas"], alphaem=0.00781, ref=(num["refscale"], num["refnf"]))
+    fresh = Couplings(info, order=tuple(num["order"]), method=CouplingEvolutionMethod.EXPANDED, masses=num["masses"],
+                      hqm_scheme=scheme, thresholds_ratios=num["ratios"])
+    a = fresh.a_ref.copy()
+    for st in steps:
+        if st["k"] == "run":
+            s0, s1 = num["t2f"][st["a"]], num["t2f"][st["b"]]
+            a = fresh.compute(a, st["nf"], matchings.lepton_number(s0), s0, s1).copy()
+        else:
+            L = np.log(num["ratios"][st["q"]])
+            tabc = (ec.compute_matching_coeffs_down if st["dir"] == "down" else ec.compute_matching_coeffs_up)(fresh.hqm_scheme, st["nf"])
+            fact = 1.0
+            for n in range(1, num["order"][0]):
+                for lp in range(n + 1):
+                    fact += a[0] ** n * L**lp * tabc[n, lp]
+            a[0] *= fact
+    return [float(v) for v in a]
